@@ -158,6 +158,8 @@ def execute(beh, R, variant=0, rnd=None, cache=None, probe=True, want_obj=False)
                     other = render(st["other"], R)
                     src = project(other, R)
                     sim = {int(j): key_index(atoms, R, key) for j, key in rec["map"]}
+                    if R.name not in ("identity", "tests"):
+                        sim = {np.int64(j): np.int64(i) for j, i in sim.items()}     # indices often come out of numpy
                     if st["mode"] == "held":
                         offs = held[st["frag"]]
                         rec["offs"] = [int(x) for x in offs]
@@ -182,7 +184,10 @@ def execute(beh, R, variant=0, rnd=None, cache=None, probe=True, want_obj=False)
                     orders = order_variants(ixs, rnd)
                     order = orders[variant % len(orders)] if n == nsteps - 1 else orders[0]
                     rec["listing"] = order
-                    del atoms[list(order)]
+                    # the container the indices come in is the caller's choice as well
+                    cont = variant % 4
+                    del atoms[list(order) if cont == 0 else np.array(order, dtype=np.int64) if cont == 1 else tuple(order) if cont == 2
+                              else [np.int32(i) for i in order]]
                 elif op == "Pop":
                     rec["i"] = st["i"]
                     if st["i"] == -1 and variant % 2 == 0:
@@ -193,7 +198,7 @@ def execute(beh, R, variant=0, rnd=None, cache=None, probe=True, want_obj=False)
                     rec["dims"] = list(st["dims"])
                     other = atoms
                     src = pre
-                    atoms = atoms.replicate(tuple(st["dims"]))
+                    atoms = atoms.replicate(tuple(st["dims"]) if R.name == "identity" else (list(st["dims"]) if R.name == "scaled" else np.array(st["dims"])))
                 elif op == "Subset":
                     rec["ixs"] = list(st["ixs"])
                     other = atoms
